@@ -28,7 +28,7 @@ def describe(rep):
     rep.rule = 'case = (node family, quadrature type, node count, interval); per case 2 SMT queries (QF_LRA) over all polynomial data + concrete structural clauses'
     rep.assume('tolerance 1e-11 * interval length (1e-9 for EQUID / CHEBY with M >= 7: conditioning of the float tables)',
                'polynomials are written in the normalised variable (t - tleft)/(tright - tleft) with coefficients in [-1,1]')
-    rep.out_of_scope('M > 8 (quick: 5)', 'arbitrary intervals are enumerated/sampled, not solved (the list includes zero end points, a large offset, short intervals and intervals whose length does not round-trip: (b - a) + a != b)', 'everything inside qmat')
+    rep.out_of_scope('M > 8 (quick: 5) for the families other than LEGENDRE; M > 16', 'arbitrary intervals are enumerated/sampled, not solved (the list includes zero end points, a large offset, short intervals and intervals whose length does not round-trip: (b - a) + a != b)', 'everything inside qmat')
 
 
 def tasks(tier, seed):
@@ -47,6 +47,10 @@ def tasks(tier, seed):
                 if M > 5:  # (on intervals shorter than 1e-5 the qmat generator merges nodes closer than 1e-8 to an end point with it -- the defect recorded for large offsets; with M <= 5 all nodes stay clear of that)
                     ivs = [iv for iv in ivs if iv[1] - iv[0] >= 1e-5]
                 T.append(('coll', nt, qt, M, ivs))
+    # larger node counts (Gauss-Legendre families only: their tables stay well conditioned), two intervals
+    for qt in QUAD_TYPES:
+        for M in ((9, 13, 16) if quick else (9, 10, 11, 12, 13, 14, 15, 16)):
+            T.append(('coll', 'LEGENDRE', qt, M, [(0.0, 1.0), (-0.7, 0.3)]))
     # the collocation object a SWEEPER builds from its parameters (tleft / tright are forwarded): the object the library actually works with
     for nt in NODE_TYPES:
         for qt in QUAD_TYPES:
